@@ -473,35 +473,25 @@ var justifiedORD = map[string]ordJust{
 				return false, "fetchPkgEnums not found"
 			}
 			owned := false
-			ast.Inspect(fe.Decl.Body, func(n ast.Node) bool {
-				be, ok := n.(*ast.BinaryExpr)
-				if !ok || (be.Op != token.NEQ && be.Op != token.EQL) {
+			for _, cf := range calleeClosure(c.w, fe, 2) {
+				ast.Inspect(cf.Decl.Body, func(n ast.Node) bool {
+					be, ok := n.(*ast.BinaryExpr)
+					if !ok || (be.Op != token.NEQ && be.Op != token.EQL) {
+						return true
+					}
+					l, r := es(be.X), es(be.Y)
+					if (strings.HasSuffix(l, ".Obj().Pkg()") && strings.HasSuffix(r, ".Types")) || (strings.HasSuffix(r, ".Obj().Pkg()") && strings.HasSuffix(l, ".Types")) {
+						owned = true
+					}
 					return true
-				}
-				l, r := es(be.X), es(be.Y)
-				if (strings.HasSuffix(l, ".Obj().Pkg()") && strings.HasSuffix(r, ".Types")) || (strings.HasSuffix(r, ".Obj().Pkg()") && strings.HasSuffix(l, ".Types")) {
-					owned = true
-				}
-				return true
-			})
+				})
+			}
 			if !owned {
 				return false, "fetchPkgEnums no longer restricts enum keys to types declared in the visited package: a type whose constants live in two packages gets the members of whichever package is merged last"
 			}
 			// (3) union keys are the package's own type names
-			fu := c.w.Func("analysis.fetchPkgUnions")
-			an := c.w.Func("analysis.allNamedTypes")
-			if fu == nil || an == nil {
-				return false, "fetchPkgUnions/allNamedTypes not found"
-			}
-			usesOwn := false
-			ast.Inspect(fu.Decl.Body, func(n ast.Node) bool {
-				if call, ok := n.(*ast.CallExpr); ok && calleeOf(fu.Pkg.TypesInfo, call) == an.Obj {
-					usesOwn = true
-				}
-				return true
-			})
-			if !usesOwn {
-				return false, "fetchPkgUnions no longer takes its candidates from the visited package's own scope"
+			if cfi, _ := candidatesSite(c.w); cfi == nil {
+				return false, "fetchPkgUnions no longer takes its candidates from the visited package's own scope (no collection of the scope's named types found)"
 			}
 			// (4) the per-package merge is idempotent: every store into a table declared outside the walker is
 			// `T[k] = v` with k, v the key and value of an enclosing range (a package may be visited several times)
